@@ -304,6 +304,11 @@ def _check(args):
         for r in rows:
             if r.get("name") == ctx[0] and r.get("type") == "text":
                 r["type"] = default_type
+    if reps and mode != "indexed" and i % 3 == 0:
+        # an unrelated question elsewhere that bears the name of one of the repeats (legal: nothing refers to either by name); the
+        # references between the questions of that repeat are not affected by it
+        rx = rng_for(seed, PID, "decoy", i)
+        rows += [{"type": "begin group", "name": "decoy_grp", "label": "D"}, {"type": "text", "name": rx.choice(reps)[0], "label": "Same name as a repeat"}, {"type": "end group"}]
     st, r = xf.convert_form(forms.as_dict(form))
     if st != "ok":
         if st == "crash":
